@@ -40,6 +40,8 @@ def sequences(order, n):
 
 
 def execute(dev):
+    if dev.get("kind") == "pipeline":
+        return exec_pipeline(dev)
     from vmc.drive import inproc
     from nanoemoji.png import PNG
 
@@ -157,12 +159,70 @@ def execute(dev):
     return out
 
 
+PIPE_SRC = [
+    ("emoji_u1f600.svg", '<svg xmlns="http://www.w3.org/2000/svg" viewBox="0 0 128 128"><rect x="10" y="10" width="90" height="60" fill="#E53935"/>'
+                         '<circle cx="80" cy="90" r="30" fill="#1E88E5"/></svg>'),
+    ("emoji_u1f601_200d_1f602.svg", '<svg xmlns="http://www.w3.org/2000/svg" viewBox="0 0 128 128"><path d="M10,110 L64,10 L118,110 Z" fill="#43A047"/>'
+                                    '<rect x="40" y="60" width="50" height="30" fill="#FDD835" opacity="0.6"/></svg>'),
+]
+
+
+def exec_pipeline(case):
+    """the command line's own PNG chain (resvg -> pngquant -> zopflipng, the last two optional): the image stored for a source is,
+    byte for byte, the PNG of the last stage that is switched on"""
+    from fontTools.ttLib import TTFont
+    from vmc.drive import cli
+    from vmc.oracles import shaper
+    import shutil
+
+    w = cli.mkscratch("c14p")
+    try:
+        files = cli.write_sources(w / "src", PIPE_SRC)
+        args = [f"--color_format={case['fmt']}", "--use_pngquant" if case["pngquant"] else "--nouse_pngquant",
+                "--use_zopflipng" if case["zopflipng"] else "--nouse_zopflipng"] + files
+        r = cli.nanoemoji(w, args, timeout=600)
+        out = w / "build" / "Font.ttf"
+        if r.returncode != 0 or not out.exists():
+            return [bad("C14.pipeline-builds", f"exit {r.returncode}: {(r.stderr or '')[-300:]}")]
+        font = TTFont(out)
+        last = "zopflipng" if case["zopflipng"] else "pngquant" if case["pngquant"] else "bitmap"
+        vs = []
+        for f in files:
+            cps = [int(x, 16) for x in f.stem[len("emoji_u"):].split("_")]
+            names = shaper.shape(font, cps)
+            if len(names) != 1:
+                vs.append(bad("C14.reachable", f"{f.name} shapes to {names}"))
+                continue
+            if case["fmt"] == "cbdt":
+                data = bytes(font["CBDT"].strikeData[0][names[0]].imageData)
+            else:
+                data = bytes(next(iter(font["sbix"].strikes.values())).glyphs[names[0]].imageData)
+            stages = {st: (w / "build" / st / (f.stem + ".png")) for st in ("bitmap", "pngquant", "zopflipng")}
+            have = {st: p_.read_bytes() for st, p_ in stages.items() if p_.exists()}
+            if last not in have:
+                vs.append(bad("C14.pipeline-builds", f"{f.name}: the build has no {last} PNG (stages present: {sorted(have)})"))
+            elif data != have[last]:
+                which = [st for st, b in have.items() if b == data]
+                vs.append(bad("C14.image-bytes", f"{case['fmt']} pngquant={case['pngquant']} zopflipng={case['zopflipng']}: the image stored for {f.name} "
+                                                 f"({len(data)} bytes) is {'the ' + which[0] + ' stage' if which else 'no stage'}'s PNG, the build's final PNG is build/{last}/{f.stem}.png ({len(have[last])} bytes)"))
+        return vs or [ok("C14.image-bytes", f"pipeline:{case['fmt']}:{last}")]
+    finally:
+        shutil.rmtree(w, ignore_errors=True)
+
+
 def run(report, tier, only=None):
     k = int(only) if only and only.isdigit() else K[tier]
-    lattice.explore(report, DIMS, k, execute, timeout=120)
+    if only != "pipeline":
+        lattice.explore(report, DIMS, k, execute, timeout=120)
+    if only in (None, "pipeline"):
+        from vmc.core import listing
+
+        cases = [{"kind": "pipeline", "fmt": f, "pngquant": q, "zopflipng": z} for f in ("cbdt", "sbix") for q in (True, False) for z in (True, False)]
+        listing.run(report, cases, execute, timeout=900, jobs=8)
     report.extra["deviation_bound"] = k
     report.rule = (
         "E1: all states with <= %d deviations over bitmap height (8) x aspect (5) x configured width (5) x metrics (6) x {cbdt, sbix} x glyph-order "
         "shape (4) x number of glyphs (3) x configured bitmap_resolution (the image height / 128 / 100) x per-glyph widths x linegap, built with the real _generate_color_font from generated PNGs; image bytes, ppem, placement judged with the "
-        "exact pixel size, pixel advance, consecutive runs; unrepresentable cases must raise; distinct = format, #strikes, bitmap shape, width mode" % k
+        "exact pixel size, pixel advance, consecutive runs; unrepresentable cases must raise; plus the command line's PNG chain: {cbdt, sbix} x pngquant on/off x "
+        "zopflipng on/off, real builds, stored bytes == the PNG of the last stage switched on; distinct = format, #strikes, bitmap shape, width mode" % k
     )
